@@ -3,11 +3,13 @@
 // Usage: xlate -repo /repo -out /verif/lean/ThruVerif/Gen
 //
 // Emits (deleting what was there before):
-//   Consts.lean    protocol constants via go/types constant evaluation
-//   Geometry.lean  chunk geometry: whole functions from go/ssa, embedded expressions from the AST
-//   Layouts.lean   wire layout of every control record, read off the write*/read* bodies
-//   Order.lean     "A dominates B" facts from SSA dominator trees, make() sites in decoders
-//   pins.json      sha256 of the go/printer-normalised text of every hand-modelled function
+//
+//	Consts.lean    protocol constants via go/types constant evaluation
+//	Geometry.lean  chunk geometry: whole functions from go/ssa, embedded expressions from the AST
+//	Layouts.lean   wire layout of every control record, read off the write*/read* bodies
+//	Order.lean     "A dominates B" facts from SSA dominator trees, make() sites in decoders
+//	Shapes.lean    source text of decision points of hand-modelled code (limit tests, routing arguments, overwrites)
+//	pins.json      sha256 of the go/printer-normalised text of every hand-modelled function
 //
 // Anything outside the supported subset makes the target fail loudly: the generated file then
 // contains `xlate_failed_<target>` markers that make the Lean obligations fail (never papered over).
@@ -28,6 +30,7 @@ import (
 	"os"
 	"path/filepath"
 	"sort"
+	"strconv"
 	"strings"
 
 	"golang.org/x/tools/go/packages"
@@ -87,7 +90,7 @@ func main() {
 		w.fset = p.Fset
 	}
 	os.MkdirAll(*outDir, 0o755)
-	for _, f := range []string{"Consts.lean", "Geometry.lean", "Layouts.lean", "Order.lean", "pins.json"} {
+	for _, f := range []string{"Consts.lean", "Geometry.lean", "Layouts.lean", "Order.lean", "Shapes.lean", "pins.json"} {
 		os.Remove(filepath.Join(*outDir, f))
 	}
 	write := func(name, content string) {
@@ -100,6 +103,7 @@ func main() {
 	write("Geometry.lean", w.genGeometry())
 	write("Layouts.lean", w.genLayouts())
 	write("Order.lean", w.genOrder())
+	write("Shapes.lean", w.genShapes())
 	write("pins.json", w.genPins())
 	rep := map[string]any{"failures": w.fails}
 	b, _ := json.MarshalIndent(rep, "", " ")
@@ -1517,6 +1521,146 @@ func (w *world) genOrder() string {
 	b.WriteString(strings.Join(rows, ",\n"))
 	b.WriteString("\n]\n\nend TV.Gen.Order\n")
 	return b.String()
+}
+
+// ---------------------------------------------------------------------------------------------
+// shapes: the printed source of decision points that hand-written models transcribe. They are emitted as Lean string
+// lists; the property modules compare them (decide) with the text the model was written from.
+
+type shapeTarget struct {
+	pkg, fn, recv string // recv: substring of the receiver type ("" = any / plain function)
+	sel           string // if-msg:<s> | if-ret-false | if-cond-has:<s> | assign:<lhs> | args:<callee>
+	leanName      string
+}
+
+var shapeTargets = []shapeTarget{
+	{"internal/session", "CreateLimited", "Store", "if-ret-false", "store_create_limit"},
+	{"internal/session", "GetByJoinCode", "Store", "if-cond-has:ExpiresAt", "store_expiry_test"},
+	{"cmd/thruserv", "main", "", "if-msg:session limit reached", "handler_session_limit"},
+	{"cmd/thruserv", "main", "", "if-msg:max receivers exceeds server limit", "handler_post_maxrecv"},
+	{"cmd/thruserv", "handleWebSocket", "", "if-msg:max receivers exceeds server limit", "handler_ws_maxrecv"},
+	{"cmd/thruserv", "handleWebSocket", "", "if-msg:receiver limit reached", "handler_receiver_limit"},
+	{"cmd/thruserv", "handleWebSocket", "", "if-msg:connection limit reached", "handler_conn_limit"},
+	{"cmd/thruserv", "handleWebSocket", "", "if-msg:message too large", "handler_msg_size"},
+	{"cmd/thruserv", "handleWebSocket", "", "if-msg:websocket message rate limit exceeded", "handler_msg_rate"},
+	{"cmd/thruserv", "Acquire", "connLimiter", "if-ret-false", "connlimiter_acquire"},
+	{"cmd/thruserv", "Allow", "tokenBucket", "if-ret-false", "bucket_allow"},
+	{"cmd/thruserv", "handleWebSocket", "", "assign:env.From", "handler_from_overwrite"},
+	{"cmd/thruserv", "handleWebSocket", "", "args:hub.SendTo", "handler_sendto_args"},
+	{"cmd/thruserv", "handleWebSocket", "", "args:hub.BroadcastExcept", "handler_bcast_except_args"},
+	{"cmd/thruserv", "handleWebSocket", "", "args:hub.Broadcast", "handler_bcast_args"},
+	{"cmd/thruserv", "handleWebSocket", "", "args:store.GetByJoinCode", "handler_lookup_args"},
+	{"internal/ice", "ProbeAndDial", "Prober", "if-cond-has:claimed", "probe_claim"},
+}
+
+func (w *world) genShapes() string {
+	var b strings.Builder
+	b.WriteString("-- generated by xlate from /repo (go/ast, go/printer); do not edit\nnamespace TV.Gen.Shapes\n\n")
+	for _, t := range shapeTargets {
+		p := w.pkgs[t.pkg]
+		var found []string
+		nfn := 0
+		if p != nil {
+			for _, f := range p.Syntax {
+				for _, d := range f.Decls {
+					fd, ok := d.(*ast.FuncDecl)
+					if !ok || fd.Name.Name != t.fn || fd.Body == nil {
+						continue
+					}
+					if t.recv != "" && (fd.Recv == nil || !strings.Contains(w.exprText(fd.Recv.List[0].Type), t.recv)) {
+						continue
+					}
+					nfn++
+					found = append(found, w.shapesIn(fd.Body, t.sel)...)
+				}
+			}
+		}
+		if nfn == 0 {
+			w.fail("shape:"+t.leanName, "function %s.%s not found", t.pkg, t.fn)
+		}
+		fmt.Fprintf(&b, "/-- %s.%s: %s -/\ndef %s : List String := [", t.pkg, t.fn, t.sel, t.leanName)
+		for i, s := range found {
+			if i > 0 {
+				b.WriteString(", ")
+			}
+			b.WriteString(strconv.Quote(s))
+		}
+		b.WriteString("]\n\n")
+	}
+	b.WriteString("end TV.Gen.Shapes\n")
+	return b.String()
+}
+
+func hasStringLit(n ast.Node, sub string) bool {
+	hit := false
+	ast.Inspect(n, func(x ast.Node) bool {
+		if bl, ok := x.(*ast.BasicLit); ok && bl.Kind == token.STRING && strings.Contains(bl.Value, sub) {
+			hit = true
+		}
+		return !hit
+	})
+	return hit
+}
+
+// shapesIn: for if-selectors, the conditions of all enclosing `if`s (outermost first, joined with " ; ") of each matching `if`
+func (w *world) shapesIn(body *ast.BlockStmt, sel string) []string {
+	var res []string
+	var stack []ast.Node
+	conds := func() string {
+		var cs []string
+		for _, n := range stack {
+			if is, ok := n.(*ast.IfStmt); ok {
+				cs = append(cs, w.exprText(is.Cond))
+			}
+		}
+		return strings.Join(cs, " ; ")
+	}
+	ast.Inspect(body, func(n ast.Node) bool {
+		if n == nil {
+			stack = stack[:len(stack)-1]
+			return true
+		}
+		stack = append(stack, n)
+		switch {
+		case strings.HasPrefix(sel, "if-msg:"):
+			if is, ok := n.(*ast.IfStmt); ok {
+				// the message must be in this if's own body, not in a nested if
+				own := false
+				for _, st := range is.Body.List {
+					if _, nested := st.(*ast.IfStmt); !nested && hasStringLit(st, sel[7:]) {
+						own = true
+					}
+				}
+				if own {
+					res = append(res, conds())
+				}
+			}
+		case sel == "if-ret-false":
+			if is, ok := n.(*ast.IfStmt); ok && len(is.Body.List) > 0 {
+				if rs, ok := is.Body.List[len(is.Body.List)-1].(*ast.ReturnStmt); ok && len(rs.Results) > 0 && w.exprText(rs.Results[len(rs.Results)-1]) == "false" {
+					res = append(res, conds())
+				}
+			}
+		case strings.HasPrefix(sel, "if-cond-has:"):
+			if is, ok := n.(*ast.IfStmt); ok && strings.Contains(w.exprText(is.Cond), sel[12:]) {
+				res = append(res, conds())
+			}
+		case strings.HasPrefix(sel, "assign:"):
+			if as, ok := n.(*ast.AssignStmt); ok && len(as.Lhs) == 1 && w.exprText(as.Lhs[0]) == sel[7:] {
+				res = append(res, w.exprText(as.Rhs[0]))
+			}
+		case strings.HasPrefix(sel, "args:"):
+			if c, ok := n.(*ast.CallExpr); ok && w.exprText(c.Fun) == sel[5:] {
+				var as []string
+				for _, a := range c.Args {
+					as = append(as, w.exprText(a))
+				}
+				res = append(res, strings.Join(as, ", "))
+			}
+		}
+		return true
+	})
+	return res
 }
 
 // ---------------------------------------------------------------------------------------------
